@@ -15,6 +15,12 @@ def run(ck):
         g = dict(g)
         g["calls"] = [pcall("bc", "list")]
         groups.append(g)
+    # the branch logic of the search only matters from about 8 items on: every BAG (the algorithm sorts its input) of <= 8 values
+    B = [dict(g, C=12) for g in scope.p_scope(ck, 8 if q else 9, 7, 1, minv=2)] + [dict(g, C=10) for g in scope.p_scope(ck, 8, 6, 1, minv=2)]
+    for g in B:
+        if len(g["vals"]) >= 6:
+            groups.append({"vals": g["vals"], "C": g["C"], "calls": [pcall("bc", "list")]})
+    ck.cat("bags_of_6_to_9_items", sum(1 for g in B if len(g["vals"]) >= 6))
     fam = gen.pack_families(ck.rng, 260 if q else 5000, maxn=11 if q else 12, minv=1)
     for g in fam + WITNESS:
         g = dict(g)
@@ -22,7 +28,7 @@ def run(ck):
         g["calls"] = [pcall("bc", "list")]
         groups.append(g)
     ck.rule = ("TLC enumerates every arrival sequence of <=5 values in 1..C for C in {4,6}; bin-completion executed on each with output types "
-               "PartitionAndSumsTuple, BinCount and Sums; plus seeded families of 6-12 items (uniform, small, triplet, half-size, exact fills) on which "
+               "PartitionAndSumsTuple, BinCount and Sums; every bag of <=8 values in 2..7 (C=12) and 2..6 (C=10), where the search's branching first matters; plus seeded families of 6-12 items (uniform, small, triplet, half-size, exact fills) on which "
                "best-fit-decreasing often misses the lower bound so the search runs; minimum number of bins recomputed in TLA+ (Oracles.MinBins, subset DP). "
                "non-trivial = distinct (sequence, C) with >=2 items")
     r = ck.mc("OracleX", "CONSTANTS MaxN = 5 MaxV = 4 MaxK = 1 Cs = {4, 6}\nINIT Init\nNEXT Next\nINVARIANT MinBinsAgrees\n",
